@@ -6,36 +6,47 @@
 #include <cstddef>
 #include <memory>
 #include <utility>
-using rv = fcppt::container::raw_vector::object<int>;
-using alloc = std::allocator<int>;
-struct outp { std::size_t size, cap; long ret; int e[8]; };
-static rv mk(std::size_t cap, std::size_t n, int a0, int a1, int a2, int a3){
-  alloc al{}; int *p = cap == 0 ? nullptr : al.allocate(cap); int const a[4] = {a0, a1, a2, a3};
+#ifndef VF_ELEM
+#define VF_ELEM int
+#endif
+using elem = VF_ELEM; // int, or unsigned char (1-byte elements: the byte-loop memmove model is then element-exact and the insert/resize family closes)
+using rv = fcppt::container::raw_vector::object<elem>;
+using alloc = std::allocator<elem>;
+struct outp { std::size_t size, cap; long ret; elem e[8]; };
+static rv mk(std::size_t cap, std::size_t n, elem a0, elem a1, elem a2, elem a3){
+  alloc al{}; elem *p = cap == 0 ? nullptr : al.allocate(cap); elem const a[4] = {a0, a1, a2, a3};
   for (std::size_t i = 0; i < 4 && i < n; ++i) p[i] = a[i];
   return rv{fcppt::container::raw_vector::rep<alloc>{al, p, p + n, p + cap}};
 }
 static void put(rv const &v, outp *o, long ret){ o->size = v.size(); o->cap = v.capacity(); o->ret = ret; for (std::size_t i = 0; i < 8 && i < v.size(); ++i) o->e[i] = v[i]; }
-#define ST std::size_t cap, std::size_t n, int a0, int a1, int a2, int a3
+#define ST std::size_t cap, std::size_t n, elem a0, elem a1, elem a2, elem a3
 #define MK rv v{mk(cap, n, a0, a1, a2, a3)}
 extern "C" {
-void vf_rv_push_back(ST, int x, outp *o){ MK; v.push_back(x); put(v, o, 0); }
+void vf_rv_push_back(ST, elem x, outp *o){ MK; v.push_back(x); put(v, o, 0); }
 void vf_rv_push_back_alias(ST, std::size_t k, outp *o){ MK; v.push_back(v[k]); put(v, o, 0); }
 void vf_rv_pop_back(ST, outp *o){ MK; v.pop_back(); put(v, o, 0); }
-void vf_rv_insert(ST, std::size_t i, int x, outp *o){ MK; auto const it = v.insert(v.begin() + i, x); put(v, o, it - v.begin()); }
+void vf_rv_insert(ST, std::size_t i, elem x, outp *o){ MK; auto const it = v.insert(v.begin() + i, x); put(v, o, it - v.begin()); }
 void vf_rv_insert_alias(ST, std::size_t i, std::size_t k, outp *o){ MK; auto const it = v.insert(v.begin() + i, v[k]); put(v, o, it - v.begin()); }
-void vf_rv_insert_n(ST, std::size_t i, std::size_t cnt, int x, outp *o){ MK; v.insert(v.begin() + i, cnt, x); put(v, o, 0); }
+void vf_rv_insert_n(ST, std::size_t i, std::size_t cnt, elem x, outp *o){ MK; v.insert(v.begin() + i, cnt, x); put(v, o, 0); }
 void vf_rv_insert_n_alias(ST, std::size_t i, std::size_t cnt, std::size_t k, outp *o){ MK; v.insert(v.begin() + i, cnt, v[k]); put(v, o, 0); }
-void vf_rv_insert_range(ST, std::size_t i, std::size_t cnt, int x0, int x1, outp *o){ MK; int const src[2] = {x0, x1}; v.insert(v.begin() + i, src, src + cnt); put(v, o, 0); }
+void vf_rv_insert_range(ST, std::size_t i, std::size_t cnt, elem x0, elem x1, outp *o){ MK; elem const src[2] = {x0, x1}; v.insert(v.begin() + i, src, src + cnt); put(v, o, 0); }
+#define CNT(C) \
+void vf_rv_insert_n_##C(ST, std::size_t i, elem x, outp *o){ vf_rv_insert_n(cap, n, a0, a1, a2, a3, i, C, x, o); } \
+void vf_rv_insert_n_alias_##C(ST, std::size_t i, std::size_t k, outp *o){ vf_rv_insert_n_alias(cap, n, a0, a1, a2, a3, i, C, k, o); } \
+void vf_rv_insert_range_##C(ST, std::size_t i, elem x0, elem x1, outp *o){ vf_rv_insert_range(cap, n, a0, a1, a2, a3, i, C, x0, x1, o); }
+CNT(1) CNT(2)
 void vf_rv_erase(ST, std::size_t i, outp *o){ MK; auto const it = v.erase(v.begin() + i); put(v, o, it - v.begin()); }
 void vf_rv_erase_range(ST, std::size_t i, std::size_t j, outp *o){ MK; auto const it = v.erase(v.begin() + i, v.begin() + j); put(v, o, it - v.begin()); }
-void vf_rv_resize(ST, std::size_t m, int x, outp *o){ MK; v.resize(m, x); put(v, o, 0); }
+void vf_rv_resize(ST, std::size_t m, elem x, outp *o){ MK; v.resize(m, x); put(v, o, 0); }
+#define RS(M) void vf_rv_resize_##M(ST, elem x, outp *o){ vf_rv_resize(cap, n, a0, a1, a2, a3, M, x, o); }
+RS(0) RS(1) RS(2) RS(3) RS(4) RS(5)
 void vf_rv_reserve(ST, std::size_t c, outp *o){ MK; v.reserve(c); put(v, o, 0); }
 void vf_rv_shrink(ST, outp *o){ MK; v.shrink_to_fit(); put(v, o, 0); }
 void vf_rv_clear(ST, outp *o){ MK; v.clear(); put(v, o, 0); }
 void vf_rv_move_ctor(ST, outp *o, outp *src){ MK; rv w{std::move(v)}; put(w, o, 0); put(v, src, 0); }
-void vf_rv_move_assign(ST, std::size_t n2, int b0, int b1, outp *o, outp *src){ MK; rv w{mk(2, n2, b0, b1, 0, 0)}; w = std::move(v); put(w, o, 0); put(v, src, 0); }
-void vf_rv_swap(ST, std::size_t n2, int b0, int b1, outp *o, outp *o2){ MK; rv w{mk(2, n2, b0, b1, 0, 0)}; v.swap(w); put(v, o, 0); put(w, o2, 0); }
-void vf_rv_ctor_count(std::size_t cnt, int x, outp *o){ rv v(cnt, x); put(v, o, 0); }
-void vf_rv_ctor_range(std::size_t cnt, int x0, int x1, int x2, outp *o){ int const src[3] = {x0, x1, x2}; rv v(src, src + cnt); put(v, o, 0); }
-void vf_rv_ctor_list(int x0, int x1, outp *o){ rv v{x0, x1}; put(v, o, 0); }
+void vf_rv_move_assign(ST, std::size_t n2, elem b0, elem b1, outp *o, outp *src){ MK; rv w{mk(2, n2, b0, b1, 0, 0)}; w = std::move(v); put(w, o, 0); put(v, src, 0); }
+void vf_rv_swap(ST, std::size_t n2, elem b0, elem b1, outp *o, outp *o2){ MK; rv w{mk(2, n2, b0, b1, 0, 0)}; v.swap(w); put(v, o, 0); put(w, o2, 0); }
+void vf_rv_ctor_count(std::size_t cnt, elem x, outp *o){ rv v(cnt, x); put(v, o, 0); }
+void vf_rv_ctor_range(std::size_t cnt, elem x0, elem x1, elem x2, outp *o){ elem const src[3] = {x0, x1, x2}; rv v(src, src + cnt); put(v, o, 0); }
+void vf_rv_ctor_list(elem x0, elem x1, outp *o){ rv v{x0, x1}; put(v, o, 0); }
 }
